@@ -16,6 +16,7 @@ import (
 	"github.com/eclipse/paho.mqtt.golang/packets"
 	"github.com/megaease/easegress/pkg/logger"
 	"github.com/megaease/easegress/pkg/zzverif/mc"
+	"github.com/megaease/easegress/pkg/zzverif/vrt"
 )
 
 func init() { logger.InitNop() }
@@ -280,7 +281,26 @@ func (s *c14Sys) Apply(c *mc.Ctx, i int) {
 	s.check(c, o)
 }
 
+// c14Order fixes the order in which findSubscribers visits the children of every trie node (the range over
+// node.nodes of topic.go is rewritten to vrt.StringKeys): pass p takes the p-th of the enumerated orders.
+type c14Order int
+
+func (p c14Order) Choose(n int, label string) int    { return int(p) % n }
+func (p c14Order) ChooseDev(n int, label string) int { return int(p) % n }
+
+var c14Passes = []c14Order{0, 1}
+
 func (s *c14Sys) check(c *mc.Ctx, o c14Op) {
+	defer vrt.SetOrderChooser(nil)
+	for _, pass := range c14Passes {
+		vrt.SetOrderChooser(pass)
+		s.checkRouting(c, o, int(pass))
+	}
+	vrt.SetOrderChooser(nil)
+	s.checkResidue(c, o)
+}
+
+func (s *c14Sys) checkRouting(c *mc.Ctx, o c14Op, pass int) {
 	for _, t := range s.topics {
 		got, err := s.b.topicMgr.findSubscribers(t)
 		if err != nil {
@@ -316,6 +336,9 @@ func (s *c14Sys) check(c *mc.Ctx, o c14Op) {
 			}
 		}
 	}
+}
+
+func (s *c14Sys) checkResidue(c *mc.Ctx, o c14Op) {
 	// no residue: the trie must be structurally equal to one built from scratch from the live set
 	if len(s.maybe) == 0 {
 		fresh := newTopicManager(1000)
